@@ -1,14 +1,27 @@
 -------------------------- MODULE RPCAuthPubsubMC --------------------------
+(* Exhaustive check of RPCAuthPubsub: every trust configuration, replicas of  *)
+(* Starters possibly still to be started (every interleaving of the start-up  *)
+(* steps with publishes, deliveries, forgeries, handshakes, Trust/Distrust).  *)
+(* The configurations *_neg_* set one constant to a deviation (validator      *)
+(* registered last / lax signature policy / handshake stores into the trusted *)
+(* set) and must VIOLATE IgnoresUntrusted: they show that the invariant sees  *)
+(* those deviations.                                                          *)
 EXTENDS RPCAuthPubsub
+
+CONSTANT Starters
 
 Init == \E t \in [Reps -> [all : BOOLEAN, set : SUBSET Reps]] :
             /\ \A r \in Reps : t[r] \in TrustCfgs(r)
-            /\ InitWith(t)
+            /\ \E down \in {{}, Starters} : InitWith(t, down)
 Next ==
     \/ \E r \in Reps : npub < MaxPub /\ Publish(r, [s |-> r, n |-> npub + 1])
     \/ \E r \in Reps : Rebroadcast(r)
-    \/ \E m \in msgs, r \in Reps : Deliver(m, r)
-    \/ \E r \in Reps : \E p \in Reps \ {r} : nact < MaxActs /\ (Trust(r, p) \/ Distrust(r, p))
+    \/ \E m \in msgs, r \in Reps : Deliver(m, r) \/ Receive(m, r)
+    \/ \E r \in Reps : \E m \in buf[r] : Apply(m, r)
+    \/ \E r \in Starters, k \in {"val", "sub", "run"} : StartStep(r, k)
+    \/ \E r \in Reps : \E p \in Reps \ {r} :
+          nact < MaxActs /\ (Trust(r, p) \/ Distrust(r, p) \/ JoinHandshake(r, p))
+    \/ \E as \in Reps, of \in Reps, sig \in {"none", "bad"} : nact < MaxActs /\ Forge(as, of, sig)
 Spec == Init /\ [][Next]_pvars
 
 \* the direct reading, as a cross-check of Legit: a replica that trusts nobody
